@@ -34,7 +34,7 @@ func (c *executionContext) Error() error {
 func (c *executionContext) Report(e error) {
 	c.lock.Lock()
 	defer c.lock.Unlock()
-	if c.lastError != nil {
+	if c.lastError == nil {
 		c.lastError = e
 	}
 }
